@@ -242,6 +242,11 @@ def path_literals(ev, b, prog=None):
                 lits |= literals(f, True)
         else:
             ds = strip_sites(d)
+            # `cond.then_some(()).ok_or(e)?`: on the Continue edge of Try::branch the combinator chain succeeded
+            if ds.op == "discr" and ds.a[0].op == "call" and _name(ds.a[0]) == "Try::branch" and ds.a[0].a[1] and val == 0:
+                alts = success_alternatives(ds.a[0].a[1][0], prog)
+                if len(alts) == 1:
+                    lits |= alts[0]
             if val == "otherwise":
                 arms = tuple(v for v, _ in tj["arms"])
                 lits.add((("atom", "switch_not", ds, arms), True))
@@ -274,3 +279,33 @@ def variant_of_switch(prog, fn, src_bb, val):
                     return (adt, v["name"])
             return (adt, val)
     return None
+
+
+_PASS_SUCCESS = ("Result::<T, E>::map", "Result::<T, E>::map_err", "Option::<T>::map", "Option::<T>::ok_or", "Option::<T>::ok_or_else", "Result::<T, E>::ok", "Result::<T, E>::or_else", "Into::into", "From::from", "Option::<T>::filter", "Result::<T, E>::and_then", "Option::<T>::and_then", "Option::<T>::then")
+
+
+def success_alternatives(t, P=None, depth=4):
+    """When can this Result/Option-valued term be Ok/Some?  A list of literal sets (one per way), [] if never,
+    [set()] if nothing is known.  Combinators are read by their std contract: `c.then_some(v)` is Some iff c,
+    `x.ok_or(e)` / `x.map(f)` / `x.map_err(f)` succeed iff x does, `and_then` / `filter` only if x does."""
+    if depth <= 0:
+        return [set()]
+    while t.op in ("ref", "deref"):
+        t = t.a[0]
+    if t.op == "agg" and t.a[0][0] == "adt" and t.a[0][1] in ("Result", "Option"):
+        return [set()] if t.a[0][2] in ("Ok", "Some") else []
+    if t.op == "phi":
+        out = []
+        for x in t.a[0]:
+            out += success_alternatives(x, P, depth - 1)
+        return out
+    if t.op == "call":
+        n = _name(t)
+        if (n.startswith("bool::") and n.split("::")[-1] in ("then_some", "then")) and t.a[1]:
+            f = formula(t.a[1][0], P)
+            if f == FALSE:
+                return []
+            return [set(literals(f, True))]
+        if n in _PASS_SUCCESS and t.a[1]:
+            return success_alternatives(t.a[1][0], P, depth - 1)
+    return [set()]
